@@ -27,8 +27,8 @@ CATS = ("states", "der_states", "alg_states", "inputs", "constants", "parameters
 FLAGS = ("unroll_loops", "inline_functions", "expand_mx")
 
 
-def _default(name, k):
-    return ((zlib.crc32(("%s#%d" % (name, k)).encode()) % 33) - 16) / 8.0
+def _default(name, k, salt=0):
+    return ((zlib.crc32(("%s#%d#%s" % (name, k, salt)).encode()) % 33) - 16) / 8.0
 
 
 def _vec(variables, point):
@@ -38,7 +38,7 @@ def _vec(variables, point):
         n = s.size1() * s.size2()
         val = point.get(s.name())
         if val is None:
-            out += [_default(s.name(), k) for k in range(n)]
+            out += [_default(s.name(), k, point.get("#salt", 0)) for k in range(n)]
         elif isinstance(val, list):
             if len(val) != n:
                 raise ValueError("size of %s: %d values for %d entries" % (s.name(), len(val), n))
